@@ -290,8 +290,8 @@ def run_shard(spec, acc):
                         "outcome_kinds": {k2: sum(1 for o in outcomes if o[0] == k2) for k2 in ("msg", "none", "exc")}})
 
     # --- D: argument lists shared between constructions; encoder counters per instance --------------
-    for rep in range(5 if quick else 50):
-        shared = [60928, "isoAddressClaim", 127250]
+    for rep in range(6 if quick else 60):
+        shared = [[60928, "isoAddressClaim", 127250], [60928, 127250], ["isoAddressClaim"], [127250, 60928, 130306]][rep % 4]
         snapshot = list(shared)
         d1 = NMEA2000Decoder(exclude_pgns=shared)
         d2 = NMEA2000Decoder(exclude_pgns=shared)
